@@ -36,7 +36,12 @@ func runC19(rc *sim.RunCtx) {
 	case "send-fail":
 		plan.FailAt = t.Choose(8)
 		plan.FailErr = []string{"rpc error: code = Unavailable desc = transport is closing", "EOF", "rpc error: code = Canceled desc = context canceled"}[t.Choose(3)]
-		plan.CancelDelay = []time.Duration{0, 100 * time.Millisecond, 2 * time.Second}[t.Choose(3)]
+		// the context may also stay alive after the failed Send (e.g. message too large, marshalling error)
+		plan.CancelDelay = []time.Duration{0, 100 * time.Millisecond, 2 * time.Second, -1}[t.Choose(4)]
+		if plan.CancelDelay < 0 {
+			plan.FailErr = []string{"rpc error: code = ResourceExhausted desc = grpc: trying to send message larger than max", "rpc error: code = Internal desc = grpc: error while marshaling"}[t.Choose(2)]
+			rc.Probe("send-fail-context-alive")
+		}
 	case "stall":
 		plan.StallAt = t.Choose(6)
 		plan.StallFor = []time.Duration{0, 500 * time.Millisecond, 3 * time.Second}[t.Choose(3)]
@@ -90,7 +95,13 @@ func runC19(rc *sim.RunCtx) {
 		st := world.NewFakeStream[*sdcpb.GetDataResponse](w.Ctx, "getdata", plan, rc.Logf)
 		st.Yield = sched.Yield
 		cancelFn = st.End
-		endedAt = func() time.Time { return st.EndedAt }
+		endedAt = func() time.Time {
+			// GetData and Subscribe also have to end once the stream failed (a Send error), not only on cancellation
+			if kind != "watchdeviations" && !st.FailedAt.IsZero() && (st.EndedAt.IsZero() || st.FailedAt.Before(st.EndedAt)) {
+				return st.FailedAt
+			}
+			return st.EndedAt
+		}
 		enc := []sdcpb.Encoding{sdcpb.Encoding_STRING, sdcpb.Encoding_PROTO, sdcpb.Encoding_JSON, sdcpb.Encoding_JSON_IETF}[t.Choose(4)]
 		req := &sdcpb.GetDataRequest{Name: world.DSName, Path: []*sdcpb.Path{root, k1}[:1+t.Choose(2)], Datastore: &sdcpb.DataStore{Type: sdcpb.Type_MAIN}, Encoding: enc, DataType: sdcpb.DataType_CONFIG}
 		run(func() error { return w.Srv.GetData(req, st) })
@@ -98,7 +109,13 @@ func runC19(rc *sim.RunCtx) {
 		st := world.NewFakeStream[*sdcpb.SubscribeResponse](w.Ctx, "subscribe", plan, rc.Logf)
 		st.Yield = sched.Yield
 		cancelFn = st.End
-		endedAt = func() time.Time { return st.EndedAt }
+		endedAt = func() time.Time {
+			// GetData and Subscribe also have to end once the stream failed (a Send error), not only on cancellation
+			if kind != "watchdeviations" && !st.FailedAt.IsZero() && (st.EndedAt.IsZero() || st.FailedAt.Before(st.EndedAt)) {
+				return st.FailedAt
+			}
+			return st.EndedAt
+		}
 		req := &sdcpb.SubscribeRequest{Name: world.DSName}
 		for i := 0; i < nsubs; i++ {
 			iv := time.Duration(1+t.Choose(3)) * time.Second
@@ -113,7 +130,13 @@ func runC19(rc *sim.RunCtx) {
 		st := world.NewFakeStream[*sdcpb.WatchDeviationResponse](world.PeerCtx(w.Ctx, "10.0.0.9:999"), "deviations", plan, rc.Logf)
 		st.Yield = sched.Yield
 		cancelFn = st.End
-		endedAt = func() time.Time { return st.EndedAt }
+		endedAt = func() time.Time {
+			// GetData and Subscribe also have to end once the stream failed (a Send error), not only on cancellation
+			if kind != "watchdeviations" && !st.FailedAt.IsZero() && (st.EndedAt.IsZero() || st.FailedAt.Before(st.EndedAt)) {
+				return st.FailedAt
+			}
+			return st.EndedAt
+		}
 		dctx, dcancel := contextWithCancel(w)
 		deviationStop = dcancel
 		go w.DS.DeviationMgr(dctx)
@@ -132,7 +155,8 @@ func runC19(rc *sim.RunCtx) {
 	}
 	if cancelAt < 0 && kind != "getdata" {
 		// backstop: every scenario ends with a client cancel, a fault index may never be reached
-		cancelAt = 15 * time.Second
+		// (later than the liveness bound, so that a handler that only ends on cancellation is noticed)
+		cancelAt = 25 * time.Second
 		if kind == "watchdeviations" {
 			cancelAt = 70 * time.Second
 		}
@@ -186,7 +210,7 @@ func init() {
 		Rule: "after a short history, one streaming RPC (Server.Subscribe with 1-4 subscriptions and 1-3 s intervals, Server.GetData in one of the 4 encodings, Server.WatchDeviations with the real DeviationMgr) runs against a fake server stream whose Send parks under the seeded scheduler and can fail at index k (3 error kinds; context cancelled 0/100 ms/2 s later or never), stall (500 ms/3 s/until cancel) or be slow; the client cancels at a drawn 250 ms tick. Oracle: handler returns within 2 x largest interval + 5 s after the stream ended, no panic, no goroutine left at bubble end. Non-trivial = any fault/cancel mode or >=2 subscriptions; distinct = (rpc, mode, indices, #subscriptions).",
 		Real: append(append([]string{}, realCore...), "pkg/server GetData/Subscribe/WatchDeviations handlers", "pkg/datastore Get/Subscribe/DeviationMgr/runDeviationUpdate"), Stub: append(append([]string{}, stubCore...), "gRPC server streams (fake Send/Context)"),
 		CrashIsViolation: true, HangIsViolation: true,
-		RequiredProbes: []string{"rpc-subscribe", "rpc-getdata", "rpc-watchdeviations", "multi-subscription", "mode-send-fail", "mode-cancel"},
+		RequiredProbes: []string{"rpc-subscribe", "rpc-getdata", "rpc-watchdeviations", "multi-subscription", "mode-send-fail", "mode-cancel", "send-fail-context-alive"},
 		QuickSeconds:   30, ThoroughSeconds: 480,
 	})
 }
